@@ -419,7 +419,14 @@ fn gen_cell(rng: &mut Rng, serial: &mut u64, allow_err: bool) -> Data {
     let k = *serial;
     match rng.below(16) {
         0 => Data::Int(k as i64 * 7 - 50),
-        1 => Data::Float(k as f64 + 0.25),
+        1 => match k % 4 {
+            // non-zero with magnitude below one (true as a boolean, 0 as an integer), and both zeros
+            0 => Data::Float(1.0 / (k as f64 + 1.0)),
+            1 => Data::Float(-0.25 / k as f64),
+            2 if k % 8 == 2 => Data::Float(if k % 16 == 2 { 0.0 } else { -0.0 }),
+            2 => Data::Float(if k % 16 == 6 { f64::NAN } else { f64::INFINITY }),
+            _ => Data::Float(k as f64 + 0.25),
+        },
         2 => Data::Float(-(k as f64) * 1000.5),
         3 => Data::Float(300.0 + k as f64), // > u8::MAX: saturating cast
         4 => Data::String(match k % 7 {
@@ -433,7 +440,7 @@ fn gen_cell(rng: &mut Rng, serial: &mut u64, allow_err: bool) -> Data {
         7 => Data::String(if k % 5 == 0 { String::new() } else { format!("text {}", k) }),
         8 => Data::Bool(k % 2 == 0),
         9 | 10 => Data::Empty,
-        11 => Data::DateTime(ExcelDateTime::new(40000.0 + k as f64, ExcelDateTimeType::DateTime, false)),
+        11 => Data::DateTime(ExcelDateTime::new(if k % 5 == 0 { 0.5 / k as f64 } else { 40000.0 + k as f64 }, ExcelDateTimeType::DateTime, false)),
         12 => Data::DateTimeIso(format!("2021-03-04T05:06:{:02}", k % 60)),
         13 => Data::DurationIso(format!("PT{}H", k % 24)),
         14 if allow_err => Data::Error(
